@@ -356,8 +356,10 @@ class Run:
             "coverage": cov, "assumptions": self.assumptions,
             "wall_s": round(time.time() - self.t0, 1), "violations": nviol,
         }
-        os.makedirs(os.path.join(VERIF, "evidence"), exist_ok=True)
-        with open(os.path.join(VERIF, "evidence", self.prop + ".json"), "w") as f:
+        # evidence under /verif describes /repo itself; runs against another tree (revert/seeded self-tests) write elsewhere
+        evdir = os.path.join(VERIF, "evidence") if REPO == "/repo" else os.path.join(tempfile.gettempdir(), "verif-evidence-other-tree")
+        os.makedirs(evdir, exist_ok=True)
+        with open(os.path.join(evdir, self.prop + ".json"), "w") as f:
             json.dump(ev, f, indent=1)
 
 
